@@ -1191,7 +1191,7 @@ def run(chk, P):
     chk.floor('R13.6', 4)
     r13_8(chk, P, K, res)
     r13_14(chk, P)
-    chk.floor('R13.14', 7)
+    chk.floor('R13.14', 4)
     r13_15(chk, P)
     chk.floor('R13.8', 8)
     r13_9(chk, P, K)
